@@ -55,30 +55,30 @@ Step ==
         \/ /\ ~(\E q \in Rpcs : q # r /\ InHandler(q) /\ rpc[q].p = rpc[r].p) /\ gc.st \notin {"in"}
            /\ GetPod(r, pod[rpc[r].p].api \/ pod[rpc[r].p].cached, pod[rpc[r].p].sticky, TRUE) /\ Keep /\ H([a |-> "obs"])
         \/ /\ \E q \in Rpcs : q # r /\ InHandler(q) /\ rpc[q].p = rpc[r].p
-           /\ RpcRet(r, FALSE, "processing", 0, 0) /\ Keep /\ H([a |-> "obs"])
+           /\ RpcRet(r, FALSE, "processing", 0, 0, 0) /\ Keep /\ H([a |-> "obs"])
   \/ \E r \in Rpcs : rpc[r].st = "in" /\ rpc[r].k = "add" /\
         \/ /\ rpc[r].found /\ rpc[r].wrec = NoRec /\ wr = NoWr
            /\ \E x \in (IF Mine(rpc[r].p) # {} THEN Mine(rpc[r].p) ELSE Avail(rpc[r].p)) :
-                 PutBegin(rpc[r].p, [c |-> rpc[r].c, e |-> x[1], a |-> x[2], s |-> rpc[r].sticky])
+                 PutBegin(rpc[r].p, [c |-> rpc[r].c, e |-> x[1], a |-> x[2], a6 |-> 0, s |-> rpc[r].sticky])
            /\ Keep /\ H([a |-> "obs"])
         \/ /\ rpc[r].wrec # NoRec /\ wr = NoWr
-           /\ RpcRet(r, TRUE, "", rpc[r].wrec.e, rpc[r].wrec.a) /\ Keep /\ H([a |-> "open", p |-> rpc[r].p])
+           /\ RpcRet(r, TRUE, "", rpc[r].wrec.e, rpc[r].wrec.a, 0) /\ Keep /\ H([a |-> "open", p |-> rpc[r].p])
         \/ /\ rpc[r].wrec = NoRec /\ wr.p # rpc[r].p /\ (rpc[r].found => bud.fail < MaxFail)
-           /\ RpcRet(r, FALSE, IF rpc[r].found THEN "canceled" ELSE "invalid", 0, 0)
+           /\ RpcRet(r, FALSE, IF rpc[r].found THEN "canceled" ELSE "invalid", 0, 0, 0)
            /\ bud' = [bud EXCEPT !.fail = @ + (IF rpc[r].found THEN 1 ELSE 0)]
            /\ H(IF rpc[r].found THEN [a |-> "cancel", p |-> rpc[r].p] ELSE [a |-> "open", p |-> rpc[r].p])
         \/ /\ rpc[r].wrec = NoRec /\ wr.p # rpc[r].p /\ rpc[r].p \in dbf                               \* its database write failed: error reply
-           /\ RpcRet(r, FALSE, "error", 0, 0) /\ Keep /\ H([a |-> "open", p |-> rpc[r].p])
+           /\ RpcRet(r, FALSE, "error", 0, 0, 0) /\ Keep /\ H([a |-> "open", p |-> rpc[r].p])
   \/ \E r \in Rpcs : rpc[r].st = "in" /\ rpc[r].k = "del" /\
         \/ /\ rpc[r].eff /\ ~rpc[r].wdel /\ wr = NoWr /\ DelBegin(rpc[r].p) /\ Keep /\ H([a |-> "obs"])
         \/ /\ (rpc[r].eff => rpc[r].wdel) /\ wr.p # rpc[r].p
-           /\ RpcRet(r, TRUE, "", 0, 0) /\ Keep /\ H([a |-> "open", p |-> rpc[r].p])
+           /\ RpcRet(r, TRUE, "", 0, 0, 0) /\ Keep /\ H([a |-> "open", p |-> rpc[r].p])
         \/ /\ rpc[r].eff /\ ~rpc[r].wdel /\ wr.p # rpc[r].p /\ bud.dbf > 0                              \* its delete failed: error reply
-           /\ RpcRet(r, FALSE, "error", 0, 0) /\ Keep /\ H([a |-> "open", p |-> rpc[r].p])
+           /\ RpcRet(r, FALSE, "error", 0, 0, 0) /\ Keep /\ H([a |-> "open", p |-> rpc[r].p])
   \/ \E r \in Rpcs : rpc[r].st = "in" /\ rpc[r].k = "get" /\
         LET d == disk[rpc[r].p] IN
-        /\ IF rpc[r].found /\ d # NoRec /\ d.c = rpc[r].c THEN RpcRet(r, TRUE, "", d.e, d.a)
-           ELSE RpcRet(r, rpc[r].found, IF rpc[r].found THEN "" ELSE "invalid", 0, 0)
+        /\ IF rpc[r].found /\ d # NoRec /\ d.c = rpc[r].c THEN RpcRet(r, TRUE, "", d.e, d.a, 0)
+           ELSE RpcRet(r, rpc[r].found, IF rpc[r].found THEN "" ELSE "invalid", 0, 0, 0)
         /\ Keep /\ H([a |-> "open", p |-> rpc[r].p])
   \/ wr # NoWr /\ WriteEnd(wr.p, TRUE) /\ Keep /\ H([a |-> "obs"])
   \/ wr # NoWr /\ wr.by = "rpc" /\ bud.dbf < MaxDbf /\ WriteEnd(wr.p, FALSE)                      \* the bolt write fails
